@@ -1851,7 +1851,7 @@ class DynamicSeedingInstrumentation(transformer.DynamicSeedingInstrumentationAda
                 code_object_id,
                 node,
                 maybe_compare,
-                maybe_compare_index,
+                node.position_of(maybe_compare),
             )
             return
 
@@ -1869,7 +1869,7 @@ class DynamicSeedingInstrumentation(transformer.DynamicSeedingInstrumentationAda
                 code_object_id,
                 node,
                 maybe_string_func,
-                maybe_string_func_index,
+                node.position_of(maybe_string_func),
             )
             return
 
@@ -1888,7 +1888,7 @@ class DynamicSeedingInstrumentation(transformer.DynamicSeedingInstrumentationAda
                         code_object_id,
                         node,
                         maybe_string_func_with_arg,
-                        maybe_string_func_with_arg_index,
+                        node.position_of(maybe_string_func_with_arg),
                     )
                 case "endswith":
                     self.visit_endswith_function(
@@ -1897,7 +1897,7 @@ class DynamicSeedingInstrumentation(transformer.DynamicSeedingInstrumentationAda
                         code_object_id,
                         node,
                         maybe_string_func_with_arg,
-                        maybe_string_func_with_arg_index,
+                        node.position_of(maybe_string_func_with_arg),
                     )
 
     def visit_compare_op(  # noqa: D102, PLR0917
